@@ -169,8 +169,8 @@ def edge_text(e):
     return "%s %s" % ("UNBOUNDED" if e[1] is None else e[1], word)
 
 
-def build(case):
-    """returns (source, reference text builder inputs)"""
+def build(case, parts=False):
+    """the source text of the wrapper (parts=True: the bare wrapper and the chained calls separately)"""
     src = case["src"]
     if case.get("nest"):
         # replace the first sentinel argument by a nested wrapper call
@@ -194,6 +194,8 @@ def build(case):
         chain += ".ignore_nulls()"
     if case.get("alias"):
         chain += ".as_('al')"
+    if parts:
+        return src, chain
     return src + chain
 
 
@@ -269,6 +271,24 @@ def examine(case):
     else:
         if text != reference(obj, dict(case, clauses=[c for c in cl if c != "frame"])):
             F("layout", "frame without OVER changed the text: %s" % text)
+    # the parts of a wrapper are the ones IT was given: a sibling derived from the same bare wrapper adds nothing to it
+    if any(c in cl for c in ("filter", "over", "over_empty", "orderby")):
+        s0, chain = build(case, parts=True)
+        bare = ns.ev(s0, {"Enc": Enc})
+        first = ns.ev("b" + chain, {"b": bare, "Enc": Enc})
+        t_first = first.get_sql(**kw)
+        sib_chain = ""
+        if "filter" in cl:
+            sib_chain += ".filter(F('zz') > 9)"
+        if "over" in cl or "over_empty" in cl:
+            sib_chain += ".over(F('zp'))"
+        if "orderby" in cl:
+            sib_chain += ".orderby(F('zo'))"
+        ns.ev("b" + sib_chain, {"b": bare, "Enc": Enc})
+        second = ns.ev("b" + chain, {"b": bare, "Enc": Enc})
+        if t_first != text or first.get_sql(**kw) != text or second.get_sql(**kw) != text:
+            F("foreign-part", "a wrapper derived from a shared bare wrapper renders parts it was not given: %s / %s, expected %s"
+              % (first.get_sql(**kw), second.get_sql(**kw), text))
     # token-level: one balanced group after the name, every sentinel exactly once
     try:
         toks = sqlspec.lex(text)
